@@ -195,6 +195,12 @@ theorem any_no_crash (hwf : w.wf) (ha : IsAny w) (h : Reachable w s) :
 theorem validator_sound {l : Label} {s' : State} (h : Reachable w s) (hn : next w s l = some s') : Reachable w s' :=
   .step h (next_sound hn)
 
+/-- the same, for runs whose states the elaborator cannot evaluate (64-bit arithmetic): checked by the kernel -/
+theorem validator_run (h : Reachable w s) (l : Label) (hn : (next w s l).isSome = true) :
+    Reachable w ((next w s l).get hn) := by
+  have hx : next w s l = some ((next w s l).get hn) := by simp
+  exact .step h (next_sound hx)
+
 /-! ### non-vacuity -/
 
 /-- LastFail, [failure, value, failure]: failure 0 passes the pre-check, value 1 exchanges and wins, failure 0's late
@@ -203,39 +209,39 @@ example : ∃ s, Reachable ⟨.anyLF, [.err 0, .val 1, .exc 2]⟩ s ∧ s.outSet
     s.rmwOrder = [1, 0] := by
   let w : Workload := ⟨.anyLF, [.err 0, .val 1, .exc 2]⟩
   have h0 : Reachable w (init w) := .init
-  have h1 := validator_sound h0 (l := .regSet 0 true) (s' := _) rfl
-  have h2 := validator_sound h1 (l := .regSet 1 true) (s' := _) rfl
-  have h3 := validator_sound h2 (l := .regSet 2 true) (s' := _) rfl
-  have h4 := validator_sound h3 (l := .fire 0) (s' := _) rfl
-  have h5 := validator_sound h4 (l := .retire 0) (s' := _) rfl
-  have h6 := validator_sound h5 (l := .loadLf 0 false) (s' := _) rfl
-  have h7 := validator_sound h6 (l := .fire 1) (s' := _) rfl
-  have h8 := validator_sound h7 (l := .retire 1) (s' := _) rfl
-  have h9 := validator_sound h8 (l := .loadLf 1 false) (s' := _) rfl
-  have h10 := validator_sound h9 (l := .xchgLf 1 6) (s' := _) rfl
-  have h11 := validator_sound h10 (l := .setOut 1 (.one (.val 1))) (s' := _) rfl
-  have h12 := validator_sound h11 (l := .fsubLf 0 1) (s' := _) rfl          -- wraps
-  have h13 := validator_sound h12 (l := .fire 2) (s' := _) rfl
-  have h14 := validator_sound h13 (l := .retire 2) (s' := _) rfl
-  have h15 := validator_sound h14 (l := .loadLf 2 true) (s' := _) rfl
-  exact ⟨_, h15, rfl, by decide, rfl⟩
+  have h1 := validator_run h0 (.regSet 0 true) (by decide +kernel)
+  have h2 := validator_run h1 (.regSet 1 true) (by decide +kernel)
+  have h3 := validator_run h2 (.regSet 2 true) (by decide +kernel)
+  have h4 := validator_run h3 (.fire 0) (by decide +kernel)
+  have h5 := validator_run h4 (.retire 0) (by decide +kernel)
+  have h6 := validator_run h5 (.loadLf 0 false) (by decide +kernel)
+  have h7 := validator_run h6 (.fire 1) (by decide +kernel)
+  have h8 := validator_run h7 (.retire 1) (by decide +kernel)
+  have h9 := validator_run h8 (.loadLf 1 false) (by decide +kernel)
+  have h10 := validator_run h9 (.xchgLf 1 6) (by decide +kernel)
+  have h11 := validator_run h10 (.setOut 1 (.one (.val 1))) (by decide +kernel)
+  have h12 := validator_run h11 (.fsubLf 0 1) (by decide +kernel)          -- wraps
+  have h13 := validator_run h12 (.fire 2) (by decide +kernel)
+  have h14 := validator_run h13 (.retire 2) (by decide +kernel)
+  have h15 := validator_run h14 (.loadLf 2 true) (by decide +kernel)
+  exact ⟨_, h15, by decide +kernel, by decide +kernel, by decide +kernel⟩
 
 /-- LastFail, every input fails: the last `fetch_sub` (old value 2) publishes its own failure -/
 example : ∃ s, Reachable ⟨.anyLF, [.err 0, .exc 1]⟩ s ∧ s.outSet = [.one (.err 0)] ∧ s.rmwOrder = [1, 0] := by
   let w : Workload := ⟨.anyLF, [.err 0, .exc 1]⟩
   have h0 : Reachable w (init w) := .init
-  have h1 := validator_sound h0 (l := .regSet 0 true) (s' := _) rfl
-  have h2 := validator_sound h1 (l := .regSet 1 false) (s' := _) rfl
-  have h3 := validator_sound h2 (l := .retire 1) (s' := _) rfl
-  have h4 := validator_sound h3 (l := .loadLf 1 false) (s' := _) rfl
-  have h5 := validator_sound h4 (l := .fsubLf 1 4) (s' := _) rfl
-  have h6 := validator_sound h5 (l := .dec 1 2) (s' := _) rfl
-  have h7 := validator_sound h6 (l := .fire 0) (s' := _) rfl
-  have h8 := validator_sound h7 (l := .retire 0) (s' := _) rfl
-  have h9 := validator_sound h8 (l := .loadLf 0 false) (s' := _) rfl
-  have h10 := validator_sound h9 (l := .fsubLf 0 2) (s' := _) rfl
-  have h11 := validator_sound h10 (l := .setOut 0 (.one (.err 0))) (s' := _) rfl
-  exact ⟨_, h11, rfl, rfl⟩
+  have h1 := validator_run h0 (.regSet 0 true) (by decide +kernel)
+  have h2 := validator_run h1 (.regSet 1 false) (by decide +kernel)
+  have h3 := validator_run h2 (.retire 1) (by decide +kernel)
+  have h4 := validator_run h3 (.loadLf 1 false) (by decide +kernel)
+  have h5 := validator_run h4 (.fsubLf 1 4) (by decide +kernel)
+  have h6 := validator_run h5 (.dec 1 2) (by decide +kernel)
+  have h7 := validator_run h6 (.fire 0) (by decide +kernel)
+  have h8 := validator_run h7 (.retire 0) (by decide +kernel)
+  have h9 := validator_run h8 (.loadLf 0 false) (by decide +kernel)
+  have h10 := validator_run h9 (.fsubLf 0 2) (by decide +kernel)
+  have h11 := validator_run h10 (.setOut 0 (.one (.err 0))) (by decide +kernel)
+  exact ⟨_, h11, by decide +kernel, by decide +kernel⟩
 
 /-- FirstFail, every input fails: the first CAS saves its failure, the destructor of the last consumption publishes it -/
 example : ∃ s, Reachable ⟨.anyFF, [.err 0, .exc 1]⟩ s ∧ s.outSet = [.one (.exc 1)] ∧ s.rmwOrder = [1] := by
